@@ -2397,11 +2397,6 @@ void QRDecomposition(matrix *m, matrix *Q, matrix *R)
     MatrixSet(P, +0.f);
   }
 
-  for(i = 0; i < Q->row; i++){
-    if(FLOAT_EQ(Q->data[i][i], 0, 1e-6))
-      Q->data[i][i] = 1.f;
-  }
-
   ResizeMatrix(R, m->row, m->col);
   MatrixDotProduct(Q, m, R);
 
